@@ -25,6 +25,7 @@ VARIABLES pc,         \* client program counter
           held,       \* client -> conn it has checked out, or NONE
           pend,       \* client -> message kind being processed
           nmsg,       \* client -> messages sent so far (bound)
+          vanished,   \* clients whose socket died (TCP reset) after their last message; the pooler has not noticed yet
           alive,      \* conn exists (TCP session to the server is open)
           idle,       \* conn sits in the bb8 idle queue
           bTx, bCopy, bData, bad, dirty,   \* pooler belief per conn
@@ -32,7 +33,7 @@ VARIABLES pc,         \* client program counter
           cmap,       \* cancel map: client -> conn
           viol        \* monitor: set of violation records
 
-cvars == <<pc, held, pend, nmsg>>
+cvars == <<pc, held, pend, nmsg, vanished>>
 bvars == <<alive, idle, bTx, bCopy, bData, bad, dirty>>
 tvars == <<tTx, tCopy, tUnread, tDirt, tPend, last>>
 vars  == <<cvars, bvars, tvars, cmap, viol>>
@@ -46,13 +47,15 @@ vars  == <<cvars, bvars, tvars, cmap, viol>>
 \*   big                    : statement whose reply exceeds the 8196-byte buffer (two recv() calls)
 \*   prep                   : PREPARE (session state that is NOT undone by ROLLBACK)
 \*   slow                   : statement that runs longer than the pool's statement_timeout
-FirstKinds == {"begin", "stmt", "fail", "set", "prep", "copyin", "copyin2", "big", "slow"}
+\*   local                  : a Sync-terminated batch the pooler answers itself (a lone Sync, or only a Close of a cached
+\*                            statement): nothing is sent to the server, the release decision is taken as usual
+FirstKinds == {"begin", "stmt", "fail", "set", "prep", "copyin", "copyin2", "big", "slow", "local"}
 \*   copyfail               : CopyFail - the COPY ends with an ErrorResponse instead of CommandComplete
 Kinds == FirstKinds \cup {"commit", "copydone", "copyfail"}
 
 Init ==
   /\ pc = [c \in Clients |-> "off"] /\ held = [c \in Clients |-> NONE]
-  /\ pend = [c \in Clients |-> NONE] /\ nmsg = [c \in Clients |-> 0]
+  /\ pend = [c \in Clients |-> NONE] /\ nmsg = [c \in Clients |-> 0] /\ vanished = {}
   /\ alive = [s \in Conns |-> FALSE] /\ idle = [s \in Conns |-> FALSE]
   /\ bTx = [s \in Conns |-> FALSE] /\ bCopy = [s \in Conns |-> FALSE]
   /\ bData = [s \in Conns |-> FALSE] /\ bad = [s \in Conns |-> FALSE]
@@ -70,13 +73,13 @@ NAlive == Cardinality({s \in Conns : alive[s]})
 \* Client connects / sends the first message of a transaction (outer loop of handle()).
 Connect(c) ==
   /\ pc[c] = "off" /\ pc' = [pc EXCEPT ![c] = "idle"]
-  /\ UNCHANGED <<held, pend, nmsg, bvars, tvars, cmap, viol>>
+  /\ UNCHANGED <<vanished, held, pend, nmsg, bvars, tvars, cmap, viol>>
 
 SendFirst(c, k) ==
   /\ pc[c] = "idle" /\ nmsg[c] < MaxMsgs /\ k \in FirstKinds
   /\ pc' = [pc EXCEPT ![c] = "wait"] /\ pend' = [pend EXCEPT ![c] = k]
   /\ nmsg' = [nmsg EXCEPT ![c] = @ + 1]
-  /\ UNCHANGED <<held, bvars, tvars, cmap, viol>>
+  /\ UNCHANGED <<vanished, held, bvars, tvars, cmap, viol>>
 
 \* A brand-new server connection (ServerPool::connect).
 Fresh(s) ==
@@ -100,13 +103,13 @@ Checkout(c, s) ==
         /\ Fresh(s)
   /\ held' = [held EXCEPT ![c] = s] /\ cmap' = [cmap EXCEPT ![c] = s]
   /\ pc' = [pc EXCEPT ![c] = "fwd"]
-  /\ UNCHANGED <<pend, nmsg, viol>>
+  /\ UNCHANGED <<vanished, pend, nmsg, viol>>
 
 \* No connection within connect_timeout: the client gets an error and stays usable.
 CheckoutTimeout(c) ==
   /\ pc[c] = "wait" /\ (\A t \in Conns : ~(alive[t] /\ idle[t])) /\ NAlive >= PoolSize
-  /\ pc' = [pc EXCEPT ![c] = "idle"] /\ pend' = [pend EXCEPT ![c] = NONE]
-  /\ UNCHANGED <<held, nmsg, bvars, tvars, cmap, viol>>
+  /\ pc' = [pc EXCEPT ![c] = IF c \in vanished THEN "gone" ELSE "idle"] /\ pend' = [pend EXCEPT ![c] = NONE]
+  /\ UNCHANGED <<vanished, held, nmsg, bvars, tvars, cmap, viol>>
 
 -----------------------------------------------------------------------------
 \* The PostgreSQL session: effect of client statement k on connection s, and what
@@ -183,20 +186,22 @@ ReleaseNow(s, k) ==
      ELSE ~bCopy'[s]
 
 Forward(c) ==
-  /\ pc[c] = "fwd" /\ pend[c] # "slow"
+  /\ pc[c] = "fwd" /\ pend[c] # "slow" /\ c \notin vanished
   /\ LET s == held[c]
          k == pend[c]
          loops == (k \notin {"copydone", "copyfail"}) \/ ("copydone_single_recv" \notin Dev)
-     IN /\ Exec(c, s, k, loops)
-        /\ pc' = [pc EXCEPT ![c] = IF ReleaseNow(s, k) THEN "cleanup" ELSE "intx"]
-  /\ UNCHANGED <<held, pend, nmsg, alive, idle, bad, cmap>>
+     IN /\ IF k = "local" THEN UNCHANGED <<bTx, bCopy, bData, dirty, tvars, viol>> ELSE Exec(c, s, k, loops)
+        \* deviation local_batch_keeps_server: the locally answered batch skips the release decision
+        /\ pc' = [pc EXCEPT ![c] = IF ReleaseNow(s, k) /\ ~(k = "local" /\ "local_batch_keeps_server" \in Dev)
+                                   THEN "cleanup" ELSE "intx"]
+  /\ UNCHANGED <<vanished, held, pend, nmsg, alive, idle, bad, cmap>>
 
 NextMsg(c, k) ==
   /\ pc[c] = "intx" /\ nmsg[c] < MaxMsgs /\ k \in Kinds
   /\ (k \in {"copydone", "copyfail"} => bCopy[held[c]])
   /\ pend' = [pend EXCEPT ![c] = k] /\ nmsg' = [nmsg EXCEPT ![c] = @ + 1]
   /\ pc' = [pc EXCEPT ![c] = "fwd"]
-  /\ UNCHANGED <<held, bvars, tvars, cmap, viol>>
+  /\ UNCHANGED <<vanished, held, bvars, tvars, cmap, viol>>
 
 -----------------------------------------------------------------------------
 \* Server::checkin_cleanup: ROLLBACK when believed in a transaction, RESET/DEALLOCATE when
@@ -239,7 +244,7 @@ EndWithCleanup(c, exit) ==
   /\ held' = [held EXCEPT ![c] = NONE]
   /\ cmap' = [cmap EXCEPT ![c] = IF "map_kept_after_release" \in Dev /\ ~exit THEN @ ELSE NONE]
   /\ pc' = [pc EXCEPT ![c] = IF exit THEN "gone" ELSE "idle"]
-  /\ UNCHANGED <<pend, nmsg, viol>>
+  /\ UNCHANGED <<vanished, pend, nmsg, viol>>
 
 \* Early `?` return or panic inside the transaction loop (undecodable message, Bind of an
 \* unknown statement, client write failure without mark_bad): no cleanup at all; Drop for
@@ -251,7 +256,7 @@ EarlyReturn(c) ==
        ELSE PutBack(s, bad[s], bTx[s], bCopy[s], bData[s], dirty[s])
   /\ held' = [held EXCEPT ![c] = NONE] /\ cmap' = [cmap EXCEPT ![c] = NONE]
   /\ pc' = [pc EXCEPT ![c] = "gone"]
-  /\ UNCHANGED <<pend, nmsg, bTx, bCopy, bData, bad, dirty, tvars, viol>>
+  /\ UNCHANGED <<vanished, pend, nmsg, bTx, bCopy, bData, bad, dirty, tvars, viol>>
 
 \* The server connection fails under a statement: marked bad, the client is told and leaves.
 ServerFail(c) ==
@@ -261,26 +266,63 @@ ServerFail(c) ==
        /\ bad' = [bad EXCEPT ![s] = TRUE]
   /\ held' = [held EXCEPT ![c] = NONE] /\ cmap' = [cmap EXCEPT ![c] = NONE]
   /\ pc' = [pc EXCEPT ![c] = "gone"]
-  /\ UNCHANGED <<pend, nmsg, bTx, bCopy, bData, dirty, tvars, viol>>
+  /\ UNCHANGED <<vanished, pend, nmsg, bTx, bCopy, bData, dirty, tvars, viol>>
 
 \* The statement runs past statement_timeout: the client is told and leaves; the server still owes the
 \* reply, so the connection must be discarded (mark_bad).  Deviation timeout_keeps_connection: it is not.
 StatementTimeout(c) ==
   /\ pc[c] = "fwd" /\ pend[c] = "slow"
   /\ LET s == held[c]
-         keep == "timeout_keeps_connection" \in Dev
+         \* deviation timeout_marks_bad_after_write: mark_bad comes after the error is written to the client, and is
+         \* skipped when that write fails because the client is gone
+         keep == "timeout_keeps_connection" \in Dev \/ ("timeout_marks_bad_after_write" \in Dev /\ c \in vanished)
      IN /\ tUnread' = [tUnread EXCEPT ![s] = TRUE] /\ last' = [last EXCEPT ![s] = c]
         /\ bad' = [bad EXCEPT ![s] = ~keep]
         /\ PutBack(s, ~keep, bTx[s], bCopy[s], bData[s], dirty[s])
         /\ UNCHANGED <<bTx, bCopy, bData, dirty, tTx, tCopy, tDirt, tPend>>
   /\ held' = [held EXCEPT ![c] = NONE] /\ cmap' = [cmap EXCEPT ![c] = NONE]
   /\ pc' = [pc EXCEPT ![c] = "gone"]
-  /\ UNCHANGED <<pend, nmsg, viol>>
+  /\ UNCHANGED <<vanished, pend, nmsg, viol>>
 
 \* Client leaves while idle (Terminate, socket drop, shutdown kick).
 Leave(c) ==
   /\ pc[c] = "idle" /\ pc' = [pc EXCEPT ![c] = "gone"]
-  /\ UNCHANGED <<held, pend, nmsg, bvars, tvars, cmap, viol>>
+  /\ UNCHANGED <<vanished, held, pend, nmsg, bvars, tvars, cmap, viol>>
+
+\* The client's socket dies (TCP reset) while its message is being served or while it waits for a connection.
+\* The pooler finds out when it writes to the client.
+Vanish(c) ==
+  /\ pc[c] \in {"wait", "fwd"} /\ c \notin vanished
+  /\ vanished' = vanished \cup {c}
+  /\ UNCHANGED <<pc, held, pend, nmsg, bvars, tvars, cmap, viol>>
+SendFirstGone(c, k) ==
+  /\ pc[c] = "idle" /\ nmsg[c] < MaxMsgs /\ k \in FirstKinds \ {"copyin", "copyin2", "local"}
+  /\ pc' = [pc EXCEPT ![c] = "wait"] /\ pend' = [pend EXCEPT ![c] = k]
+  /\ nmsg' = [nmsg EXCEPT ![c] = @ + 1] /\ vanished' = vanished \cup {c}
+  /\ UNCHANGED <<held, bvars, tvars, cmap, viol>>
+NextMsgGone(c, k) ==
+  /\ pc[c] = "intx" /\ nmsg[c] < MaxMsgs /\ k \in {"stmt", "fail", "set", "commit", "big"} /\ ~bCopy[held[c]]
+  /\ pend' = [pend EXCEPT ![c] = k] /\ nmsg' = [nmsg EXCEPT ![c] = @ + 1]
+  /\ pc' = [pc EXCEPT ![c] = "fwd"] /\ vanished' = vanished \cup {c}
+  /\ UNCHANGED <<held, bvars, tvars, cmap, viol>>
+
+\* The server answers a client that is gone: the write of the reply fails, the connection is marked bad
+\* (send_and_receive_loop) and closed when the guard is dropped; Drop for Client leaves the cancel map.
+ForwardVanished(c) ==
+  /\ pc[c] = "fwd" /\ pend[c] # "slow" /\ c \in vanished
+  /\ LET s == held[c] IN
+       /\ Exec(c, s, pend[c], TRUE)
+       /\ alive' = [alive EXCEPT ![s] = FALSE] /\ idle' = [idle EXCEPT ![s] = FALSE]
+       /\ bad' = [bad EXCEPT ![s] = TRUE]
+  /\ held' = [held EXCEPT ![c] = NONE] /\ cmap' = [cmap EXCEPT ![c] = NONE]
+  /\ pc' = [pc EXCEPT ![c] = "gone"]
+  /\ UNCHANGED <<pend, nmsg, vanished>>
+
+\* The pool's reaper closes an idle connection that reached idle_timeout or server_lifetime (bb8 reaper).
+Reap(s) ==
+  /\ alive[s] /\ idle[s]
+  /\ alive' = [alive EXCEPT ![s] = FALSE] /\ idle' = [idle EXCEPT ![s] = FALSE]
+  /\ UNCHANGED <<cvars, bTx, bCopy, bData, bad, dirty, tvars, cmap, viol>>
 
 \* A CancelRequest carrying c's key: looked up under the map lock; the request goes to the
 \* mapped connection.  Monitor: it must be the connection c holds right now.
@@ -290,13 +332,17 @@ Cancel(c) ==
              THEN viol \cup {<<"cancel_wrong_target", cmap[c], held[c]>>} ELSE viol
   /\ UNCHANGED <<cvars, bvars, tvars, cmap>>
 
-Next ==
+ClientNext ==
   \E c \in Clients :
      \/ Connect(c) \/ Leave(c) \/ Cancel(c)
      \/ (\E k \in Kinds : SendFirst(c, k) \/ NextMsg(c, k))
      \/ (\E s \in Conns : Checkout(c, s)) \/ CheckoutTimeout(c)
      \/ Forward(c) \/ ServerFail(c) \/ StatementTimeout(c)
      \/ EndWithCleanup(c, TRUE) \/ EndWithCleanup(c, FALSE) \/ EarlyReturn(c)
+     \/ Vanish(c) \/ ForwardVanished(c)
+     \/ (\E k \in Kinds : SendFirstGone(c, k) \/ NextMsgGone(c, k))
+
+Next == ClientNext \/ (\E s \in Conns : Reap(s))
 
 Spec == Init /\ [][Next]_vars
 
@@ -344,7 +390,7 @@ BeliefSound ==
 Deviations == {"putback_reuses_unclean", "copydone_single_recv", "copydone_no_copy_check", "set_in_tx_not_marked",
                "reset_before_rollback", "timeout_keeps_connection", "failed_tx_counts_as_idle", "prepare_not_marked",
                "session_mode_releases", "no_rollback_at_checkin", "no_reset_at_checkin", "map_kept_after_release",
-               "early_return_leaks_guard", "error_keeps_copy_mode"}
+               "early_return_leaks_guard", "error_keeps_copy_mode", "timeout_marks_bad_after_write", "local_batch_keeps_server"}
 
 Quiescent == \A c \in Clients : pc[c] \in {"off", "idle", "gone"}
 
